@@ -222,9 +222,19 @@ fn collect(cmd: &Cmd, out: &Path, o: &mut Outcome) {
 }
 
 pub fn run_via_cli(cmd: &Cmd, input: &Path, alt: Option<&Path>, out: &Path, stdin_data: Option<&[u8]>) -> Outcome {
+    run_via_program(cmd, input, alt, out, stdin_data, false)
+}
+
+/// through `pykmertools.run_cli` (the console script of the pip/conda package)
+pub fn run_via_py_entry(cmd: &Cmd, input: &Path, alt: Option<&Path>, out: &Path, stdin_data: Option<&[u8]>) -> Outcome {
+    run_via_program(cmd, input, alt, out, stdin_data, true)
+}
+
+fn run_via_program(cmd: &Cmd, input: &Path, alt: Option<&Path>, out: &Path, stdin_data: Option<&[u8]>, py: bool) -> Outcome {
     let alt_s = alt.map(io::path_str);
     let args = cmd.args(&io::path_str(input), alt_s.as_deref(), &io::path_str(out));
-    let r: CliOut = run_cli(&args, if cmd.stdin { stdin_data } else { None }, 120);
+    let sd = if cmd.stdin { stdin_data } else { None };
+    let r: CliOut = if py { crate::cli::run_py_entry(&args, sd, 120) } else { run_cli(&args, sd, 120) };
     let mut o = Outcome {
         code: r.code,
         signal: r.signal,
